@@ -16,13 +16,15 @@ EXPLANATION = (
     "arithmetic over runtime values: NOT decided.")
 
 BM = 'model::beatmap::Beatmap'
+_F = [None]          # facts of the run (set by run())
 
 
 def from_converted(v):
     """v == <something derived from convert_ref(...)>.is_convert"""
     v = prov.strip(v, names=set())
     if v[0] == 'field' and v[2] == 'is_convert':
-        return any(x[0] == 'call' and x[1].get('name') == 'convert_ref' for x in prov.walk(v[1], limit=400))
+        import entries as _e
+        return _e.from_convert_ref(_F[0], v[1])
     if v[0] == 'phi':
         return all(from_converted(x) for x in v[1])
     return False
@@ -30,6 +32,7 @@ def from_converted(v):
 
 def run(ctx):
     F = ctx.facts('default')
+    _F[0] = F
     n = 0
     for mode in ('taiko', 'catch', 'mania'):
         adt = '%s::attributes::%sDifficultyAttributes' % (mode, CAP[mode])
